@@ -211,10 +211,46 @@ func literalFieldValue(base ssa.Value, path []int, depth int) ssa.Value {
 			}
 		}
 	}
+	if n == 0 && len(path) == 1 {
+		// a field the literal does not mention: its zero value
+		if al, ok := base.(*ssa.Alloc); ok {
+			if st, ok := al.Type().(*types.Pointer).Elem().Underlying().(*types.Struct); ok && path[0] < st.NumFields() && onlyFieldAccess(al) {
+				return zeroConst(st.Field(path[0]).Type())
+			}
+		}
+	}
 	if n != 1 {
 		return nil
 	}
 	return val
+}
+
+// onlyFieldAccess: the local is only read, as a whole or field by field, and written field by field (its address is not
+// passed on and it is not assigned as a whole).
+func onlyFieldAccess(al *ssa.Alloc) bool {
+	if al.Referrers() == nil {
+		return false
+	}
+	for _, rf := range *al.Referrers() {
+		switch u := rf.(type) {
+		case *ssa.FieldAddr:
+			for _, r2 := range *u.Referrers() {
+				switch w := r2.(type) {
+				case *ssa.Store:
+					if w.Addr != ssa.Value(u) {
+						return false
+					}
+				case *ssa.UnOp, *ssa.DebugRef:
+				default:
+					return false
+				}
+			}
+		case *ssa.UnOp, *ssa.DebugRef:
+		default:
+			return false
+		}
+	}
+	return true
 }
 
 // slotArgAt: what the call site passes for the slot: the argument; for a field slot, the value the struct literal
